@@ -38,7 +38,7 @@ prop("C02", [RO.rule_EF1, RO.rule_OR2_responder, RO.rule_CR, RO.rule_OR2_gatekee
      "owner removal precedes Watcher/Responder and cascades in the DB, foreign keys switched on in the production constructor (OR1, OR2g, SQ1); a cache hit is acted on inside the same locator-cache critical section that found it, so the disconnect purge cannot run between look-up and broadcast (AT1). "
      "NOT decided: that exactly the disconnected block's entries are purged (container contents, C19).",
      technique="who-may-call + interprocedural origin tracing + SQL schema tables")
-prop("C03", [RO.rule_OR3, CF.rule_CF_switches, SQ.rule_SQ7, SQ.rule_SQ8, LK.rule_CBS, RO.rule_OR2_watcher, SQ.rule_SQ3, SQ.rule_SQ1, SQ.rule_SQ5_tower, LK.rule_AT2, RO.rule_OR2_gatekeeper, ED.rule_ED, DX.rule_DX, SQ.rule_SQ4],
+prop("C03", [RO.rule_OR3, CF.rule_CF_switches, SQ.rule_SQ7, SQ.rule_SQ8, LK.rule_CBS, LK.rule_CBR, RO.rule_OR2_watcher, SQ.rule_SQ3, SQ.rule_SQ1, SQ.rule_SQ5_tower, LK.rule_AT2, RO.rule_OR2_gatekeeper, ED.rule_ED, DX.rule_DX, SQ.rule_SQ4],
      STATIC + "Decided (ordering of durable effects, what crash-safety rests on): last-known-block written by one function only on Ok(Better(tip)) of the poll that delivered the blocks; "
      "bootstrap poll before any API is spawned; tower key regenerated only if --overwritekey or none stored (OR3); slots charged (successfully) before the store (CBS); "
      "multi-statement writes are one committed sqlite transaction (SQ3); cascades on (SQ1); one critical section and one DB delete per balance update (AT2); "
